@@ -72,14 +72,23 @@ def run(ctx):
                 and isinstance(n.value, ast.Call) and ast.unparse(n.value.func) == 'copy.deepcopy' \
                 and len(n.value.args) == 1 and isinstance(n.value.args[0], ast.Name):
             best_vars.setdefault(n.targets[0].id, n)
-    # the best-cost variable is the one later compared with '<'
+    # the best-cost variable is the one that receives a candidate cost (the result of a
+    # cost evaluation) inside the search loops
+    cand = set()
     best_cost = None
-    for n in ast.walk(tree):
-        if isinstance(n, ast.If) and isinstance(n.test, ast.Compare) and \
-                len(n.test.ops) == 1 and isinstance(n.test.ops[0], ast.Lt) and \
-                isinstance(n.test.comparators[0], ast.Name) and \
-                n.test.comparators[0].id in best_vars:
-            best_cost = n.test.comparators[0].id
+    for w in ast.walk(tree):
+        if not isinstance(w, ast.While):
+            continue
+        for n in ast.walk(w):
+            if isinstance(n, ast.Assign) and len(n.targets) == 1 and \
+                    isinstance(n.targets[0], ast.Name) and isinstance(n.value, ast.Call) and \
+                    'cost' in ast.unparse(n.value.func):
+                cand.add(n.targets[0].id)
+        for n in ast.walk(w):
+            if isinstance(n, ast.Assign) and len(n.targets) == 1 and \
+                    isinstance(n.targets[0], ast.Name) and isinstance(n.value, ast.Name) and \
+                    n.value.id in cand and n.targets[0].id in best_vars:
+                best_cost = n.targets[0].id
     if best_cost is None:
         raise AnalysisError('optimize_prec_assignment: best-cost variable not found')
     init = best_vars[best_cost]
@@ -207,11 +216,29 @@ def run(ctx):
 
     # ---- R20d -----------------------------------------------------------------------------
     n_loops = 0
+    defs = {}
+    for n in ast.walk(tree):
+        if isinstance(n, ast.Assign) and len(n.targets) == 1 and isinstance(n.targets[0], ast.Name):
+            defs.setdefault(n.targets[0].id, []).append(n.value)
+
+    def positive(e, depth=0) -> bool:
+        """expression certainly > 0: positive literals, sizes, and their products/quotients"""
+        if isinstance(e, ast.Constant):
+            return isinstance(e.value, (int, float)) and e.value > 0
+        if isinstance(e, ast.BinOp) and isinstance(e.op, (ast.Div, ast.Mult)):
+            return positive(e.left, depth) and positive(e.right, depth)
+        if isinstance(e, ast.Subscript) and isinstance(e.value, ast.Attribute) and \
+                e.value.attr == 'shape':
+            return True
+        if isinstance(e, ast.Call) and ast.unparse(e.func) == 'len':
+            return True
+        if isinstance(e, ast.Name) and depth < 3 and len(defs.get(e.id, [])) == 1:
+            return positive(defs[e.id][0], depth + 1)
+        return False
+
     for n in ast.walk(tree):
         if isinstance(n, ast.While) and isinstance(n.test, ast.Compare) and \
-                len(n.test.ops) == 1 and isinstance(n.test.ops[0], (ast.Gt, ast.GtE)) and \
-                isinstance(n.test.comparators[0], ast.Constant) and \
-                n.test.comparators[0].value == 0:
+                len(n.test.ops) == 1 and isinstance(n.test.ops[0], (ast.Gt, ast.GtE)):
             for b in ast.walk(n):
                 if isinstance(b, ast.AugAssign) and isinstance(b.op, ast.Sub) and \
                         ast.dump(b.target).replace('Store()', 'Load()') == \
@@ -219,13 +246,18 @@ def run(ctx):
                     n_loops += 1
                     step_is_float = isinstance(b.value, ast.BinOp) and \
                         isinstance(b.value.op, ast.Div)
+                    tolerant = positive(n.test.comparators[0])
+                    ok = (not step_is_float) or tolerant
                     ctx.ob('R20d', f'optimize_prec_assignment while-loop #{n_loops} float-stepped '
-                           f'share', not step_is_float,
-                           'integer-stepped counter' if not step_is_float else
+                           f'share', ok,
+                           ('integer-stepped counter' if not step_is_float else
+                            f'compared against the positive tolerance '
+                            f'{ast.unparse(n.test.comparators[0])}') if ok else
                            f'"while {ast.unparse(n.test)}" is bounded by a share decremented by '
                            f'the non-integer float {ast.unparse(b.value)}: rounding residue makes '
                            f'the loop run one step too many or too few (negative / missing '
                            f'channel counts)', f'{fn.module.relpath}:{n.lineno}')
+    ctx.floor('R20d', 'share-stepping loops', n_loops, 2)
     for p in returning(paths(repo, ra)):
         for e in p.calls():
             t = e.data[0]
